@@ -75,5 +75,34 @@ m("c11-ex-sp-iy-writes-ix",["C11","C01"],"op_exbtsg.go","\tcpu.writeU16(cpu.SP, 
 m("c11-fdcb-arm-deleted",["C11","C01"],"operation.go","\t\t\tcase 0x16:\n\t\t\t\toopRLIYdP(cpu, d)\n","")
 m("c11-fd-order-of-accesses",["C11"],"op_exbtsg.go","func oopEXSPPIY(cpu *CPU) {\n\tv := cpu.readU16(cpu.SP)\n\tcpu.writeU16(cpu.SP, cpu.IY)","func oopEXSPPIY(cpu *CPU) {\n\tv := toU16(cpu.Memory.Get(cpu.SP), 0)\n\tv |= uint16(cpu.Memory.Get(cpu.SP+1)) << 8\n\tcpu.Memory.Set(cpu.SP+1, uint8(cpu.IY>>8))\n\tcpu.Memory.Set(cpu.SP, uint8(cpu.IY))",note="same multiset of accesses, different order from the DD form: C11 asks for an identical sequence")
 m("c11-add-iy-sp-commuted",["C11","C03"],"op_arith16.go","func xopADDIYsp(cpu *CPU) {\n\ta := cpu.IY\n\tx := cpu.SP\n\tcpu.IY = cpu.addU16(a, x)","func xopADDIYsp(cpu *CPU) {\n\ta := cpu.IY\n\tx := cpu.SP\n\tcpu.IY = cpu.addU16(x, a)",expect="silent",note="addition is commutative: must not fire")
+
+# ---- C06
+m("c06-nmi-without-iff2-copy",["C06"],"cpu.go","\t\tcpu.IFF2 = cpu.IFF1\n\t\tcpu.IFF1 = false\n\t\treturn true","\t\tcpu.IFF1 = false\n\t\treturn true")
+m("c06-im1-vector-0030",["C06"],"cpu.go","\t\tcpu.PC = 0x0038\n\t\tcpu.IFF1 = false","\t\tcpu.PC = 0x0030\n\t\tcpu.IFF1 = false")
+m("c06-im2-odd-vector",["C06"],"cpu.go","vector := cpu.Interrupt.Data[0] & 0xfe","vector := cpu.Interrupt.Data[0]")
+m("c06-request-cleared-before-test",["C06","C07"],"cpu.go","\tif cpu.Interrupt != nil && cpu.processInterrupt() {\n\t\tcpu.Interrupt = nil\n\t\treturn\n\t}","\tif cpu.Interrupt != nil {\n\t\tok := cpu.processInterrupt()\n\t\tcpu.Interrupt = nil\n\t\tif ok {\n\t\t\treturn\n\t\t}\n\t}",note="a refused request is dropped instead of staying pending")
+m("c06-retn-without-iff-copy",["C06","C07"],"op_callret.go","\tcpu.SP += 2\n\tcpu.IFF1 = cpu.IFF2\n","\tcpu.SP += 2\n")
+m("c06-reti-notifies-twice",["C06"],"op_callret.go","\tif cpu.RETIHandler != nil {\n\t\tcpu.RETIHandler.RETIHandle()\n\t}","\tif cpu.RETIHandler != nil {\n\t\tcpu.RETIHandler.RETIHandle()\n\t\tcpu.RETIHandler.RETIHandle()\n\t}")
+m("c06-iff2-fix-reverted",["C06"],"cpu.go","\t\tcpu.PC = 0x0038\n\t\tcpu.IFF1 = false\n\t\tcpu.IFF2 = false","\t\tcpu.PC = 0x0038\n\t\tcpu.IFF1 = false",note="the repaired defect F2 returning")
+m("c06-im2-vector-after-push",["C06","C12"],"cpu.go","\t\t\tvector := cpu.Interrupt.Data[0] & 0xfe\n\t\t\tcpu.SP -= 2\n\t\t\tcpu.writeU16(cpu.SP, cpu.PC)\n\t\t\tcpu.PC = cpu.readU16(toU16(vector, cpu.IR.Hi))","\t\t\tcpu.SP -= 2\n\t\t\tcpu.writeU16(cpu.SP, cpu.PC)\n\t\t\tcpu.PC = cpu.readU16(toU16(cpu.Interrupt.Data[0]&0xfe, cpu.IR.Hi))",note="the repaired defect F4 returning")
+m("c06-nmi-masked-by-iff1",["C06"],"cpu.go","\tif cpu.Interrupt.Type == NMIType {","\tif cpu.Interrupt.Type == NMIType && (cpu.IFF1 || cpu.IFF2) {",note="NMI refused when both flip-flops are clear")
+m("c06-halt-handler-notify",["C06"],"op_callret.go","func oopRET(cpu *CPU) {\n","func oopRET(cpu *CPU) {\n\tif cpu.RETIHandler != nil && cpu.IFF2 && !cpu.IFF1 {\n\t\tcpu.RETIHandler.RETIHandle()\n\t}\n",note="plain RET notifies the RETI handler in one IFF state")
+m("c06-step-refactor-early-return",["C06","C07","C08"],"cpu.go","\tif cpu.Interrupt != nil && cpu.processInterrupt() {\n\t\tcpu.Interrupt = nil\n\t\treturn\n\t}\n\t// execute an op-code.\n\tcpu.executeOne()","\tif cpu.Interrupt == nil || !cpu.processInterrupt() {\n\t\t// execute an op-code.\n\t\tcpu.executeOne()\n\t\treturn\n\t}\n\tcpu.Interrupt = nil",expect="silent",note="same Step, control flow inverted")
+# ---- C07
+m("c07-ldir-rewind-by-1",["C07","C09"],"op_exbtsg.go","func oopLDIR(cpu *CPU) {\n\toopLDI(cpu)\n\tif cpu.AF.Lo&maskPV != 0 { // cpu.BC != 0\n\t\tcpu.PC -= 2","func oopLDIR(cpu *CPU) {\n\toopLDI(cpu)\n\tif cpu.AF.Lo&maskPV != 0 { // cpu.BC != 0\n\t\tcpu.PC -= 1")
+m("c07-halt-no-rewind",["C07","C08","C01"],"op_ctrl.go","\tcpu.PC--\n\tcpu.HALT = true","\tcpu.HALT = true")
+m("c07-nmi-pushes-pc-plus-1",["C07","C06"],"cpu.go","\tif cpu.Interrupt.Type == NMIType {\n\t\tcpu.SP -= 2\n\t\tcpu.writeU16(cpu.SP, cpu.PC)","\tif cpu.Interrupt.Type == NMIType {\n\t\tcpu.SP -= 2\n\t\tcpu.writeU16(cpu.SP, cpu.PC+1)")
+m("c07-im0-pushes-pc-plus-2",["C07"],"cpu.go","cpu.Memory = newIm0data(cpu.PC, cpu.Interrupt.Data, savedMemory)","cpu.PC++\n\t\t\tcpu.Memory = newIm0data(cpu.PC, cpu.Interrupt.Data, savedMemory)",note="a different wrong resume address than the recorded finding: must still be reported")
+# ---- C14
+m("c14-r-8bit-wrap",["C14","C01"],"cpu.go","cpu.IR.Lo = rc&0x80 | (rc+1)&0x7f","cpu.IR.Lo = rc + 1")
+m("c14-prefix-plain-fetch",["C14"],"operation.go","\tcase 0xed:\n\t\tswitch c1 := cpu.fetchM1(); c1 {","\tcase 0xed:\n\t\tswitch c1 := cpu.fetch(); c1 {")
+m("c14-ld-r-n-fetchm1",["C14","C01"],"op_load8.go","func xopLDdn(cpu *CPU) {\n\tcpu.DE.Hi = cpu.fetch()","func xopLDdn(cpu *CPU) {\n\tcpu.DE.Hi = cpu.fetchM1()")
+m("c14-pv-from-iff1",["C14"],"op_load8.go","\tif cpu.IFF2 {\n\t\tor |= maskPV","\tif cpu.IFF1 {\n\t\tor |= maskPV")
+m("c14-ld-i-a-also-r",["C14"],"op_load8.go","func oopLDIA(cpu *CPU) {\n\tcpu.IR.Hi = cpu.AF.Hi","func oopLDIA(cpu *CPU) {\n\tcpu.IR.Hi = cpu.AF.Hi\n\tcpu.IR.Lo = cpu.AF.Hi")
+m("c14-ld-a-r-clears-c",["C14"],"op_load8.go","func (cpu *CPU) updateFlagIR(d uint8) {\n\tvar nand uint8 = maskS53 | maskZ | maskH | maskPV | maskN","func (cpu *CPU) updateFlagIR(d uint8) {\n\tvar nand uint8 = maskS53 | maskZ | maskH | maskPV | maskN | maskC")
+m("c14-nmi-bumps-r",["C14"],"cpu.go","\t\tcpu.PC = 0x0066\n","\t\tcpu.PC = 0x0066\n\t\tcpu.IR.Lo++\n",note="R written outside instruction execution (who-may-write)")
+m("c14-reset-helper-writes-ir",["C14","C10"],"z80.go","","// ResetRefresh clears the refresh counter.\nfunc (cpu *CPU) ResetRefresh() { cpu.IR.Lo = 0 }\n",note="an exported helper that lets I/R change other than through LD")
+m("c14-r-update-refactor",["C14","C01"],"cpu.go","cpu.IR.Lo = rc&0x80 | (rc+1)&0x7f","cpu.IR.Lo = rc&0x80 + (rc&0x7f+1)&0x7f",expect="silent",note="equivalent refresh increment")
+
 json.dump(M,open("controls.json","w"),indent=1)
 print(len(M),"controls")
